@@ -129,8 +129,8 @@ type scriptedExecutor struct {
 	writer blobstore.BlobAccess
 
 	// Observations.
-	acked      []string         // contents whose Put returned nil
-	putErrors  int              // Puts that returned an error
+	acked      []string          // contents whose Put returned nil
+	putErrors  int               // Puts that returned an error
 	baseStatus *status_pb.Status // status when Execute returned
 	readers    []*trackedReader
 }
